@@ -196,7 +196,7 @@ class ScalarAttributeSet(AttributeSet):
     def pandas(self, *, missing: Literal["null", "omit"] = "null") -> pd.Series[Any]:
         arr = self.arrow()
         mask = arr.is_valid()
-        if missing == "null" and pc.all(mask).as_py():
+        if missing == "null" or pc.all(mask).as_py():
             return pd.Series(arr.to_numpy(zero_copy_only=False), index=self.ids())
         else:
             mask = mask.to_numpy(zero_copy_only=False)
@@ -207,7 +207,7 @@ class ListAttributeSet(AttributeSet):
     def pandas(self, *, missing: Literal["null", "omit"] = "null") -> pd.Series[Any]:
         arr = self.arrow()
         mask = arr.is_valid()
-        if missing == "null" and pc.all(mask).as_py():
+        if missing == "null" or pc.all(mask).as_py():
             return pd.Series(arr.to_numpy(zero_copy_only=False), index=self.ids())
         else:
             mask = mask.to_numpy(zero_copy_only=False)
